@@ -308,6 +308,36 @@ class StereoCondensedReactionGraph(StereoMolGraph, CondensedReactionGraph):
         relabeled_scrg._bond_stereo_change = bond_stereo_change
         return relabeled_scrg
 
+    def subgraph(self, atoms: Iterable[AtomId]) -> Self:
+        """Returns a subgraph of the graph with the given atoms together with
+        the stereo information and the stereo changes that lie fully inside
+
+        :param atoms: Atoms to be used for the subgraph
+        :return: Subgraph
+        """
+        atoms = list(atoms)  # may be a one-shot iterator
+        atom_set = set(atoms)
+        new_graph = super().subgraph(atoms)
+
+        for atom, change_dict in self._atom_stereo_change.items():
+            if atom in atom_set and all(
+                a is None or a in atom_set
+                for stereo in change_dict.values()
+                if stereo is not None
+                for a in stereo.atoms
+            ):
+                new_graph._atom_stereo_change[atom] = deepcopy(change_dict)
+
+        for bond, change_dict in self._bond_stereo_change.items():
+            if atom_set.issuperset(bond) and all(
+                a is None or a in atom_set
+                for stereo in change_dict.values()
+                if stereo is not None
+                for a in stereo.atoms
+            ):
+                new_graph._bond_stereo_change[bond] = deepcopy(change_dict)
+        return new_graph
+
     def reactant(self, keep_attributes: bool = True) -> StereoMolGraph:
         """
         Returns the reactant of the reaction
